@@ -41,6 +41,26 @@ ENTITY v7_refsub SUBTYPE OF (v7_ref); k : INTEGER; END_ENTITY;
 ENTITY v7_other; t : OPTIONAL v7_tgt; END_ENTITY;""",
            {'targets': ['v7_tgt'], 'referrers': [('v7_ref', [('t', 'single')]), ('v7_refsub', [('t', 'single')]), ('v7_other', [('t', 'single')])],
             'inverses': {'v7_tgt': [('users', 'v7_ref', 't', 'set')]}, 'extra': {'v7_refsub': ['7']}, 'isa': {'v7_refsub': 'v7_ref'}}),
+    # the inverse is declared two levels up
+    'v8': ("""ENTITY v8_top; n : INTEGER; INVERSE users : SET [0:?] OF v8_ref FOR t; END_ENTITY;
+ENTITY v8_mid SUBTYPE OF (v8_top); m : INTEGER; END_ENTITY;
+ENTITY v8_tgt SUBTYPE OF (v8_mid); k : INTEGER; END_ENTITY;
+ENTITY v8_ref; t : OPTIONAL v8_top; END_ENTITY;""",
+           {'targets': ['v8_tgt'], 'referrers': [('v8_ref', [('t', 'single')])], 'inverses': {'v8_tgt': [('users', 'v8_ref', 't', 'set')]}, 'tparams': {'v8_tgt': 3}}),
+    # two supertypes, each with an inverse of its own, and one declared by the entity itself
+    'v9': ("""ENTITY v9_a; n : INTEGER; INVERSE ua : SET [0:?] OF v9_refa FOR t; END_ENTITY;
+ENTITY v9_b; m : INTEGER; INVERSE ub : SET [0:?] OF v9_refb FOR t; END_ENTITY;
+ENTITY v9_tgt SUBTYPE OF (v9_a, v9_b); k : INTEGER; INVERSE uc : SET [0:?] OF v9_refc FOR t; END_ENTITY;
+ENTITY v9_refa; t : OPTIONAL v9_a; END_ENTITY;
+ENTITY v9_refb; t : OPTIONAL v9_b; END_ENTITY;
+ENTITY v9_refc; t : OPTIONAL v9_tgt; END_ENTITY;""",
+           {'targets': ['v9_tgt'], 'referrers': [('v9_refa', [('t', 'single')]), ('v9_refb', [('t', 'single')]), ('v9_refc', [('t', 'single')])],
+            'inverses': {'v9_tgt': [('ua', 'v9_refa', 't', 'set'), ('ub', 'v9_refb', 't', 'set'), ('uc', 'v9_refc', 't', 'set')]}, 'tparams': {'v9_tgt': 3}}),
+    # a referrer with a single-valued and an aggregate attribute onto the same target entity, each inverted
+    'v10': ("""ENTITY v10_tgt; n : INTEGER; INVERSE by_one : SET [0:?] OF v10_ref FOR one; by_many : SET [0:?] OF v10_ref FOR many; END_ENTITY;
+ENTITY v10_ref; one : OPTIONAL v10_tgt; many : LIST [0:?] OF v10_tgt; END_ENTITY;""",
+            {'targets': ['v10_tgt'], 'referrers': [('v10_ref', [('one', 'single'), ('many', 'aggr')])],
+             'inverses': {'v10_tgt': [('by_one', 'v10_ref', 'one', 'set'), ('by_many', 'v10_ref', 'many', 'set')]}}),
 }
 SCHEMA = 'SCHEMA iv;\n' + '\n'.join(v[0] for v in VARIANTS.values()) + '\nEND_SCHEMA;\n'
 
@@ -105,6 +125,7 @@ def _init(libdir, variant):
 def run_pop(job):
     vname, insts, exp = job
     lz = _W['lz']
+    lz.recycle_if_big()
     desc = VARIANTS[vname][1]
     tgt = desc['targets'][0]
     path = os.path.join(lz.dir, 'in.stp')
@@ -114,9 +135,26 @@ def run_pop(job):
     n = 0
     case = {'variant': vname, 'insts': insts}
     orders = [sorted(exp), sorted(exp, reverse=True)] if len(exp) > 1 else [sorted(exp)]
-    for order in orders:
+    # histories: the targets alone in both orders; and every referrer loaded first (which pulls the target in as a forward reference), then the targets
+    rids = [int(re.match(r'#(\d+)=', i).group(1)) for i in insts if int(re.match(r'#(\d+)=', i).group(1)) >= 10]
+    hists = [([], o) for o in orders] + [([r], sorted(exp)) for r in rids]
+    if len(rids) > 1:
+        hists.append((rids, sorted(exp)))
+    mentions = {}
+    for i in insts:
+        m = re.match(r'#(\d+)=[A-Z0-9_]+\((.*)\);$', i)
+        mentions[int(m.group(1))] = set(int(x) for x in re.findall(r'#(\d+)', m.group(2)))
+
+    def shape(t, want):
+        # a referrer that also mentions ANOTHER target is loaded while that target's own inverses are being resolved (re-entrant loading)
+        return 'shared-referrer' if any(mentions.get(r, set()) - {t} for r in mentions if t in mentions[r]) else 'plain'
+    for pre, order in hists:
         try:
             lz.cmd('open ' + path)
+            for r in pre:
+                lz.cmd('load %d' % r)
+            hctx = '' if not pre else '/after-loading-%s' % ('a-referrer' if len(pre) == 1 else 'all-referrers')
+            case = {'variant': vname, 'insts': insts, 'preload': pre}
             for t in order:
                 n += 1
                 got = {}
@@ -129,7 +167,7 @@ def run_pop(job):
                     g = got.get(inv)
                     if g is None:
                         if want:
-                            viol.append(('inverse-not-set/%s/%s' % (vname, ik), 'after loading #%d the inverse attribute %s is not set; referrers are %s' % (t, inv, want), case))
+                            viol.append(('inverse-not-set/%s/%s/%s%s' % (vname, ik, shape(t, want), hctx), 'after loading #%d the inverse attribute %s is not set; referrers are %s' % (t, inv, want), case))
                         continue
                     ids = g[1]
                     if g[0] != g[2] and (want or ids):
@@ -139,12 +177,13 @@ def run_pop(job):
                     if ik == 'single':
                         ok = (ids == want[:1] and len(want) <= 1) or (len(want) > 1 and len(ids) == 1 and ids[0] in want)
                         if not ok:
-                            viol.append(('single-inverse/%s/%s' % (vname, 'missing' if not ids else 'wrong'), 'after loading #%d the single-valued inverse %s holds %s; referrers are %s' % (t, inv, ids, want), case))
+                            viol.append(('single-inverse/%s/%s/%s%s' % (vname, 'missing' if not ids else 'wrong', shape(t, want), hctx), 'after loading #%d the single-valued inverse %s holds %s; referrers are %s' % (t, inv, ids, want), case))
                     elif sorted(ids) != want:
                         extra = sorted(set(ids) - set(want))
                         missing = sorted(set(want) - set(ids))
                         cls = 'twice' if len(ids) != len(set(ids)) and not extra and not missing else ('extra' if extra else 'missing')
-                        viol.append(('inverse-%s/%s/%s' % (cls, vname, inv), 'after loading #%d (order %s) the inverse %s holds %s; the referrers through %s are %s' % (t, order, inv, sorted(ids), ran, want), case))
+                        viol.append(('inverse-%s/%s/%s/%s%s' % (cls, vname, inv, shape(t, want), hctx), 'after loading %s#%d (order %s) the inverse %s holds %s; the referrers through %s are %s' % (
+                            ''.join('#%d, ' % r for r in pre), t, order, inv, sorted(ids), ran, want), case))
         except drv.Crash as e:
             lz.kill()
             viol.append(('crash/%s/%s/%s' % (e.key()[0], e.key()[1], vname), 'the lazy loader crashed on %r' % e.cmd, dict(case, log=e.log[-600:].decode('latin1'))))
